@@ -13,7 +13,7 @@ RULE = (
     "(aerolr) symmetric aircraft of 1-3 surfaces, every choice of modelled half (left / right) per surface vs all-left; (selfsym) mirror-symmetric full-span aerostructural models; (geom) left- vs right-half Geometry under each design variable and value; "
     "non-trivial = the compared field is non-zero and (for reflections) the configuration differs from its mirror image"
 )
-ASSUMPTIONS = ["finite alphabets; nx<=4, ny<=7, <=2 surfaces", "coupled solvers tightened to rtol 1e-13", "OpenMDAO/NumPy/SciPy trusted"]
+ASSUMPTIONS = ["finite alphabets; nx<=4, ny<=7 in the complete products (single production-size members up to 7x17), <=2 surfaces (3 in part aerolr)", "coupled solvers tightened to rtol 1e-13", "OpenMDAO/NumPy/SciPy trusted"]
 BOUND = {"quick": "nx<=3 (+ one planform with nx=4), ny<=5 exhaustively; production-size lattices 7x17, 5x11, 6x13 and beams of 21 nodes in addition", "thorough": "nx<=4, ny<=7"}
 TOL = 1e-9
 TOLS = 1e-7
